@@ -19,6 +19,15 @@ CELT = [(48000, 2, 2049, 96000, 1, 5, 0, 0, 0, 1002, 0, 6, 48000, 2), (48000, 1,
         (48000, 1, 2049, 24000, 1, 10, 1, 10, 0, 1002, 1103, 8, 12000, 1)]
 AUTO = [(48000, 2, 2049, 20000, 1, 9, 1, 10, 0, 0, 0, 1, 48000, 2), (48000, 1, 2048, 16000, 1, 10, 1, 20, 0, 0, 0, 1, 24000, 1),
         (16000, 1, 2048, 14000, 1, 8, 2, 15, 0, 0, 0, 6, 16000, 1)]
+# clean signals (families 11 / 12: harmonic, modulated, no additive noise) through the speech and hybrid layers
+CLEAN = [(16000, 1, 2048, 24000, 1, 5, 0, 0, 0, 1000, 0, 11, 16000, 1), (16000, 1, 2048, 24000, 1, 5, 1, 20, 0, 1000, 0, 12, 16000, 1),
+         (8000, 1, 2048, 12000, 1, 3, 0, 0, 0, 1000, 0, 12, 8000, 1), (48000, 1, 2048, 32000, 1, 5, 1, 20, 0, 1001, 1105, 11, 48000, 1),
+         (48000, 2, 2048, 40000, 1, 5, 0, 0, 0, 1001, 1104, 12, 48000, 2), (24000, 1, 2048, 20000, 0, 4, 1, 10, 0, 1000, 1103, 11, 24000, 1),
+         (48000, 1, 2048, 28000, 1, 8, 0, 0, 0, 0, 0, 12, 48000, 1), (12000, 1, 2048, 16000, 1, 6, 0, 0, 0, 1000, 0, 11, 12000, 2)]
+# strong in-band FEC (the sub-domain of the accuracy clause): speech-only wideband mono, FEC on, loss >= 20 %, >= 32 kb/s
+STRONG = [(16000, 1, 2048, 32000, 1, 5, 1, 20, 0, 1000, 0, 1, 16000, 1), (16000, 1, 2048, 40000, 1, 10, 1, 30, 0, 1000, 0, 11, 16000, 1),
+          (16000, 1, 2048, 64000, 1, 5, 1, 20, 0, 1000, 0, 12, 16000, 1), (16000, 1, 2048, 48000, 0, 7, 1, 25, 0, 1000, 0, 11, 16000, 1),
+          (16000, 1, 2048, 36000, 1, 3, 1, 40, 0, 1000, 0, 12, 16000, 1), (16000, 1, 2048, 40000, 1, 8, 2, 20, 0, 1000, 0, 1, 16000, 1)]
 DTXS = [(16000, 1, 2048, 24000, 1, 5, 0, 0, 1, 1000, 0, 10, 16000, 1), (48000, 1, 2049, 32000, 1, 10, 0, 0, 1, 0, 0, 10, 48000, 1),
         (8000, 1, 2048, 12000, 1, 3, 1, 10, 1, 1000, 0, 10, 8000, 2)]
 
@@ -29,8 +38,8 @@ def pool(pol, U):
     if U < 4:
         return CELT
     if pol in ("F1", "F2"):
-        return SILK + HYB[:3] + AUTO + [CELT[0]] + ([] if U > 8 else [HYB[3]])
-    return SILK + HYB + CELT + AUTO
+        return SILK + HYB[:3] + AUTO + [CELT[0]] + ([] if U > 8 else [HYB[3]]) + (STRONG + STRONG if U >= 8 else []) + CLEAN[:2]
+    return SILK + HYB + CELT + AUTO + CLEAN
 
 
 def shift(tokens, off):
@@ -80,7 +89,7 @@ def build_scripts(ctx, sched, bursts, tier):
     for j, (pol, U, bits, toks) in enumerate(sched):
         pl = pool(pol, U)
         c = pl[(j + rng.randrange(len(pl))) % len(pl)] if tier == "thorough" else pl[j % len(pl)]
-        groups.setdefault((c, U, j % 3), []).append((pol, U, bits, toks))
+        groups.setdefault((c, U, 0 if c in STRONG else j % 3), []).append((pol, U, bits, toks))
     streams = []
     for (c, U, b), items in sorted(groups.items(), key=lambda kv: repr(kv[0])):
         tl, ntail = tail_tokens(U)
@@ -99,12 +108,19 @@ def build_scripts(ctx, sched, bursts, tier):
             metas.append((pol, U, bits))
         streams.append((L, ws, metas))
     # bursts
-    for j, (pol, U, Lb, pre, grp, reps, suf) in enumerate(bursts):
-        if tier == "quick" and Lb * U > 420:
+    blist = [(b, None) for b in bursts]
+    # sustained loss on the clean families (speech / hybrid layer): 1.5 s in both tiers, 3 s and 10 s in thorough
+    for b in bursts:
+        if b[0] in ("PW", "PSa") and b[1] >= 4 and b[2] * b[1] in ((600,) if tier == "quick" else (600, 1200, 4000)):
+            for ci in range(len(CLEAN)):
+                if tier == "thorough" or (ci + b[1] // 4) % 2 == 0:
+                    blist.append((b, CLEAN[ci]))
+    for j, ((pol, U, Lb, pre, grp, reps, suf), forced) in enumerate(blist):
+        if tier == "quick" and Lb * U > 420 and forced is None:
             continue
         pl = pool(pol, U)
         for rep in range(1 if tier == "quick" else 2):
-            c = pl[(j + rep * 3 + rng.randrange(len(pl))) % len(pl)]
+            c = forced or pl[(j + rep * 3 + rng.randrange(len(pl))) % len(pl)]
             tl, ntail = tail_tokens(U)
             start = rng.randrange(0, 24)
             npk = start + 5 + Lb + 1 + ntail + 1
@@ -150,7 +166,8 @@ def run_streams(ctx, exe, streams, tag):
 
 
 OBS = dict(fec_frames=0, fec_err=0, plc_err=0, worst_stream_fec_ratio_x1000=None, max_over_level_cdB=-100000, n_over=0,
-           max_after_400ms_cdB=-100000, n_after_400ms=0, max_after_1s_cdB=-100000, max_after_2s_cdB=-100000, max_tail_err_rel_cdB=-100000, n_tail=0, drift=0)
+           max_after_400ms_cdB=-100000, n_after_400ms=0, max_after_1s_cdB=-100000, max_after_2s_cdB=-100000, max_tail_err_rel_cdB=-100000, n_tail=0, drift=0,
+           strong_fec_streams=0, strong_fec_frames=0, worst_strong_fec_ratio_x1000=None, clean_speech_max_after_1s_cdB=-100000, n_clean_speech_after_1s=0)
 
 
 def read_prints(r, trace=None):
@@ -166,21 +183,29 @@ def read_prints(r, trace=None):
                     x = int(p[7:].split(",")[0])
                     g.write(p + " " + cfgs.get(x, "") + "\n")
     for p in r.prints:
-        m = re.match(r'"OBS <<(-?\d+), (-?\d+), (-?\d+), (-?\d+), (-?\d+), (-?\d+), (-?\d+), (-?\d+), (-?\d+), (-?\d+), (-?\d+), (-?\d+)>>"', p)
-        if m:
-            x, nf, sf, sp, o1, n1, o2, n2, o4, n4, o2b, o2c = [int(v) for v in m.groups()]
-            OBS["max_after_1s_cdB"] = max(OBS["max_after_1s_cdB"], o2b); OBS["max_after_2s_cdB"] = max(OBS["max_after_2s_cdB"], o2c)
-            OBS["fec_frames"] += nf; OBS["fec_err"] += sf; OBS["plc_err"] += sp
-            if nf >= 20 and sp > 0:
-                ratio = 1000 * sf // sp
-                if OBS["worst_stream_fec_ratio_x1000"] is None or ratio > OBS["worst_stream_fec_ratio_x1000"]:
-                    OBS["worst_stream_fec_ratio_x1000"] = ratio
-            if n1:
-                OBS["max_over_level_cdB"] = max(OBS["max_over_level_cdB"], o1); OBS["n_over"] += n1
-            if n2:
-                OBS["max_after_400ms_cdB"] = max(OBS["max_after_400ms_cdB"], o2); OBS["n_after_400ms"] += n2
-            if n4:
-                OBS["max_tail_err_rel_cdB"] = max(OBS["max_tail_err_rel_cdB"], o4); OBS["n_tail"] += n4
+        if not p.startswith('"OBS <<'):
+            continue
+        v = [int(t) for t in p[7:-3].split(", ")]
+        x, nf, sf, sp, o1, n1, o2, n2, o4, n4, o2b, o2c, o5, o5b, n5, nf3, sf3, sp3 = v
+        OBS["max_after_1s_cdB"] = max(OBS["max_after_1s_cdB"], o2b); OBS["max_after_2s_cdB"] = max(OBS["max_after_2s_cdB"], o2c)
+        OBS["fec_frames"] += nf; OBS["fec_err"] += sf; OBS["plc_err"] += sp
+        if nf >= 20 and sp > 0:
+            ratio = 1000 * sf // sp
+            if OBS["worst_stream_fec_ratio_x1000"] is None or ratio > OBS["worst_stream_fec_ratio_x1000"]:
+                OBS["worst_stream_fec_ratio_x1000"] = ratio
+        if nf3 >= 20 and sp3 > 0:
+            ratio = 1000 * sf3 // sp3
+            OBS["strong_fec_streams"] += 1; OBS["strong_fec_frames"] += nf3
+            if OBS["worst_strong_fec_ratio_x1000"] is None or ratio > OBS["worst_strong_fec_ratio_x1000"]:
+                OBS["worst_strong_fec_ratio_x1000"] = ratio
+        if n5:
+            OBS["clean_speech_max_after_1s_cdB"] = max(OBS["clean_speech_max_after_1s_cdB"], o5); OBS["n_clean_speech_after_1s"] += n5
+        if n1:
+            OBS["max_over_level_cdB"] = max(OBS["max_over_level_cdB"], o1); OBS["n_over"] += n1
+        if n2:
+            OBS["max_after_400ms_cdB"] = max(OBS["max_after_400ms_cdB"], o2); OBS["n_after_400ms"] += n2
+        if n4:
+            OBS["max_tail_err_rel_cdB"] = max(OBS["max_tail_err_rel_cdB"], o4); OBS["n_tail"] += n4
 
 
 def locate(trace, line):
@@ -397,6 +422,8 @@ def run(ctx):
     ctx.notes["calls"] = dict(NEV)
     ctx.notes["thresholds"] = thresholds()
     ctx.notes["observed"] = dict(OBS)
+    if os.environ.get("C09_CAL") != "1" and (OBS["strong_fec_streams"] == 0 or OBS["n_clean_speech_after_1s"] == 0):
+        raise vf.Infra("vacuous replay: strong-FEC streams=%d clean speech-layer calls after 1 s=%d" % (OBS["strong_fec_streams"], OBS["n_clean_speech_after_1s"]))
     if NEV["fec_lbrr"] == 0 or NEV["plc"] == 0 or OBS["n_after_400ms"] == 0 or OBS["n_tail"] == 0:
         raise vf.Infra("vacuous replay: fec_lbrr=%d plc=%d sustained=%d tails=%d" % (NEV["fec_lbrr"], NEV["plc"], OBS["n_after_400ms"], OBS["n_tail"]))
 
